@@ -433,9 +433,13 @@ func Run[C any](t *testing.T, spec Spec[C]) {
 				t.Fatalf("replay: %v", err)
 			}
 			x := &Ctx{s: s, ks: ks}
+			base := filepath.Base(p)
+			if strings.HasPrefix(base, "known-") {
+				// a demonstration must hit the finding: run it with no class excluded
+				x.ks = &KnownSet{active: map[string]bool{}, s: s}
+			}
 			s.Replays++
 			err = safeCheck(x, c)
-			base := filepath.Base(p)
 			if strings.HasPrefix(base, "known-") {
 				key := strings.TrimSuffix(strings.TrimPrefix(base, "known-"), ".json")
 				if i := strings.Index(key, "@"); i >= 0 {
